@@ -609,6 +609,7 @@ def sweep_cells(tier):
     kinds = ['old', 'min', 'min-1', 'multi', 'foreign', 'silent', 'open_fails', 'absent', 'v2_99']
     cells += [['connect', k] for k in kinds]
     cells += [['swap_gate', i] for i in range(len(SWAP_PAIRS))]
+    cells += [['two_ports', i] for i in range(len(SWAP_PAIRS))]
     cells += [['swap_connect', k] for k in ('old', 'min-1', 'foreign', 'silent', 'multi_ok')]
     return cells
 
@@ -634,6 +635,30 @@ def _swap_gate(x):
                {'op': 'env', 'what': 'replace_device', 'port': port, 'spec': b1},
                {'op': 'lopen', 'slot': 0, 'port': port}, dict(c), dict(c)]
         yield {'prop': PROP, 'world': {'boards': [dict(b0)]}, 'ops': mk_ops(ops), 'faults': {}, 'snap_dev': False}
+
+
+def _two_ports(x):
+    """A gated call answered by one board, then the same call on another port whose board is of another
+    firmware and whose version probe fails: nothing learnt on the first port may leak to the second."""
+    fw_a, fw_b = SWAP_PAIRS[x]
+    b0 = ebb_spec('/dev/ttyACM0', fw=fw_a, nick='A', style='linux')
+    b1 = ebb_spec('/dev/ttyACM1', fw=fw_b, nick='B', style='linux')
+    calls = [('ebb_motion.servo_timeout', [60000]), ('ebb_motion.servo_timeout', [0, 1]),
+             ('ebb_motion.queryVoltage', []), ('ebb_serial.query_nickname', []),
+             ('ebb_serial.write_nickname', ['Bob']), ('ebb_serial.reboot', []),
+             ('ebb_serial.min_version', ['2.6.0']), ('ebb_serial.min_version', ['2.2.3'])]
+    for f, a in calls:
+        ops = [{'op': 'lopen', 'slot': 0, 'port': b0['port']}, {'op': 'lopen', 'slot': 1, 'port': b1['port']},
+               lcall(f, [{'slot': 0}] + a), lcall(f, [{'slot': 1}] + a), lcall(f, [{'slot': 1}] + a)]
+        base = {'prop': PROP, 'world': {'boards': [dict(b0), dict(b1)]}, 'ops': mk_ops(ops), 'faults': {},
+                'snap_dev': False}
+        yield base
+        for rf in ({'drop': 'all'}, {'err': 'bang'}, {'drop_request': True},
+                   {'stale': {'text': 'OK\r\n', 'instead': True}}, {'stale': {'text': '\r\n', 'instead': True}}):
+            yield dict(base, faults={'reply': [dict(rf, at=[3, 1])]})
+        for k_ in (1, 2):
+            for exc in ('SerialException', 'OSError'):
+                yield dict(base, faults={'io': [{'at': [3, k_], 'kind': 'raise', 'exc': exc}]})
 
 
 def _swap_connect(kind):
@@ -699,6 +724,10 @@ def sweep_expand(cell):
         return
     if what == 'swap_gate':
         for scn in _swap_gate(x):
+            yield scn
+        return
+    if what == 'two_ports':
+        for scn in _two_ports(x):
             yield scn
         return
     if what == 'swap_connect':
